@@ -28,6 +28,10 @@ def _child(mod, item, tier, wfd):
         if not os.environ.get("VERIF_KEEP_STDERR"):
             os.dup2(devnull, 2)
         t0 = time.time()
+        # the simulator owns the global random module: a run that reaches it without seeding it
+        # itself (e.g. after the minimiser deleted a 'seed' op) is still a function of its record
+        import random as _random
+        _random.seed(12345)
         rec = item.get("record")
         if rec is None:
             rec = mod.generate(item["seed"], tier)
